@@ -391,6 +391,34 @@ func mergeErr(err error) uint64 {
 	return 2
 }
 
+// ---- retain and re-verify: what a Resource handed out must not change after later Merge / New calls ----
+
+type retainedVal struct {
+	what string
+	desc any
+	same func() bool
+}
+
+var retained []retainedVal
+
+func retainRes(what string, desc any, res *resource.Resource) {
+	if res == nil || len(retained) > 6000 {
+		return
+	}
+	attrs := res.Attributes()
+	snap := observe(res).coq()
+	enc := res.Encoded(attribute.DefaultEncoder())
+	str := res.String()
+	encCopy, strCopy := strings.Clone(enc), strings.Clone(str)
+	key := res.Equivalent()
+	eq0 := key == res.Equivalent()
+	retained = append(retained, retainedVal{what, desc, func() bool {
+		return kvsCoq(fromAttrs(attrs)) == kvsCoq(observe(res).attrs) && observe(res).coq() == snap &&
+			enc == encCopy && str == strCopy && res.Encoded(attribute.DefaultEncoder()) == encCopy && res.String() == strCopy &&
+			(key == res.Equivalent()) == eq0
+	}})
+}
+
 // ---- scripted detectors ----
 
 type ddesc struct {
@@ -874,6 +902,7 @@ func main() {
 				w.Violation("Iter().Len() disagrees with Attributes()", desc)
 			}
 			desc["observed"] = o.desc()
+			retainRes("built Resource (Attributes / Encoded / String / Equivalent)", desc, res)
 			w.Tally(fmt.Sprintf("build:kind=%d", d.kind))
 			if len(d.input) > 12 {
 				w.Tally("build:input>12-entries")
@@ -895,6 +924,9 @@ func main() {
 				w.Violation("Merge altered an operand", desc)
 			}
 			om := observe(m)
+			retainRes("Merge result", desc, m)
+			retainRes("Merge operand a", desc, a)
+			retainRes("Merge operand b", desc, b)
 			desc["merged"] = om.desc()
 			desc["err"] = fmt.Sprint(err)
 			w.Tally(fmt.Sprintf("merge2:%s:err=%d", kind, mergeErr(err)))
@@ -1178,6 +1210,7 @@ func main() {
 				return
 			}
 			ob := observe(res)
+			retainRes("New / Detect result", desc, res)
 			errs := make([]string, len(ds))
 			anyErr := false
 			for j := range ds {
@@ -1318,6 +1351,18 @@ func main() {
 	}
 	w.Extra["env_children"] = map[string]int{"own_process_environment": nSingle, "batched_setenv": len(cases) - nSingle}
 
+	changed := 0
+	for _, rv := range retained {
+		ok := false
+		guard(rv.desc, func() { ok = rv.same() })
+		if !ok {
+			if changed < 20 {
+				w.Violation("a value returned earlier changed after later calls: "+rv.what, rv.desc)
+			}
+			changed++
+		}
+	}
+	w.Extra["retained_values_reverified"] = len(retained)
 	if err := w.Flush(); err != nil {
 		fmt.Fprintln(os.Stderr, err)
 		os.Exit(2)
